@@ -40,6 +40,7 @@ type gzvDoc struct {
 	MM   map[string]map[string]int `json:"mm,optional"`
 	Ints []int                     `json:"ints,optional"`
 	LL   [][]int                   `json:"ll,optional"`
+	Grid [][]gzvInner              `json:"grid,optional"`
 }
 
 func gzvCaseKey(rnd *rand.Rand, k string) string {
@@ -92,6 +93,9 @@ func gzvGenDoc(rnd *rand.Rand) map[string]any {
 	}
 	if rnd.Intn(2) == 0 {
 		d[gzvCaseKey(rnd, "ll")] = []any{[]any{1, 2}, []any{rnd.Intn(9)}}
+	}
+	if rnd.Intn(2) == 0 {
+		d[gzvCaseKey(rnd, "grid")] = []any{[]any{gzvInnerDoc(rnd, 7), gzvInnerDoc(rnd, 8)}, []any{gzvInnerDoc(rnd, 9)}}
 	}
 	return d
 }
